@@ -62,9 +62,18 @@ func Commit(db objects.Store, rs ref.Store, id uuid.UUID) (commits map[string]*o
 	if err != nil {
 		return nil, err
 	}
+	// branches that an earlier, interrupted Commit has already moved are recorded
+	// in the reflog under this transaction: don't commit to them a second time
+	logs, err := rs.GetTransactionLogs(id)
+	if err != nil {
+		return nil, err
+	}
 	commits = map[string]*objects.Commit{}
 	buf := bytes.NewBuffer(nil)
 	for branch, sum := range m {
+		if _, ok := logs[ref.HeadRef(branch)]; ok {
+			continue
+		}
 		com, err := objects.GetCommit(db, sum)
 		if err != nil {
 			return nil, err
